@@ -238,13 +238,16 @@ class Driver:
     def observe(self, with_view=True):
         disk, _ = observe_disk(self.path, self.world)
         t = self.tdf
-        mem = dict(inside=self.inside, has_entries=False, entries=[], fds=count_fds(self.path))
+        mem = dict(inside=self.inside, has_entries=False, entries=[], fds=count_fds(self.path), adates=[])
         if self.inside and hasattr(t, "entries"):
             try:
                 mem["entries"] = proj_entries(t.entries, self.world)
                 mem["has_entries"] = True
+                # the third date of every entry (no call sets it on purpose; the object and the file agree on it)
+                mem["adates"] = [int(e.last_access_date.timestamp()) for e in t.entries]
             except Exception:
                 pass
+        disk["adates"] = [e["adate"] for e in _.table] if not disk["short"] else []
         reopen = dict(ok=False, entries=[])
         if disk["sigok"] and not disk["short"]:
             try:
